@@ -362,6 +362,15 @@ Quiescent(s, sc, e, rb, dropped) ==
              THEN V(\A c \in conns : undeliv(c) = {}, stallp(0, 0), "RequestNotDelivered")
              ELSE <<>>)
             \o V(\A c \in conns : s.fbad[c + 1] \/ s.fcount[c + 1] >= owed(c), frp(0), "ResponseNotReceived")
+            \* C18: the interim response goes out when the application first asks for the body -- not with some later
+            \* write: once nothing can run any more, a body that was asked for (and whose turn it is: everything
+            \* before it has been written) has had its 100 Continue delivered
+            \o V(\A c \in conns : s.fbad[c + 1] \/
+                    \A i \in 1..Len(Slots(s, c)) :
+                       LET m == Slots(s, c)[i] x == M(sc, c, m) IN
+                       (x.cls = "ok" /\ x.exp /\ s.asked[c + 1][m + 1] >= 1 /\ DonePrefix(s, sc, c, 1) >= i - 1)
+                          => s.icnt[c + 1][m + 1] >= 1,
+                 "C18", "InterimMissing")
             \o V(\A c \in conns : eofowed(c) => s.ceof[c + 1], (IF Fam(sc) = "C20" THEN "C20" ELSE Own(sc, "C12")), "NotClosedAfterLastResponse")
             \o V(\A c \in 0..(NC(sc) - 1) : (s.fault[c + 1] \in {"close", "reset", "half"} /\ s.sent[c + 1] < 10000000) => ~(stuckread(c) /\ ph >= 1), "C15", "BodyReadBlockedForever") ]
 
